@@ -611,8 +611,8 @@ def run_pagerank(desc, ctx):
 
 
 SUBS = [
-    Sub("articulation_bridges", run_articulation, strategy=lambda tier: und_graphs(tier, 0), quick=1200, thorough=6000, workers_quick=4),
-    Sub("kcore", run_kcore, strategy=lambda tier: und_graphs(tier, 1), quick=1000, thorough=6000, workers_quick=4),
-    Sub("pagerank", run_pagerank, strategy=lambda tier: digraphs(tier), quick=1000, thorough=5000, workers_quick=4),
-    Sub("louvain", run_louvain, strategy=lambda tier: und_graphs(tier, 2), quick=1000, thorough=6000, workers_quick=4),
+    Sub("articulation_bridges", run_articulation, strategy=lambda tier: und_graphs(tier, 0), quick=2400, thorough=6000, workers_quick=8),
+    Sub("kcore", run_kcore, strategy=lambda tier: und_graphs(tier, 1), quick=2000, thorough=6000, workers_quick=8),
+    Sub("pagerank", run_pagerank, strategy=lambda tier: digraphs(tier), quick=2000, thorough=5000, workers_quick=8),
+    Sub("louvain", run_louvain, strategy=lambda tier: und_graphs(tier, 2), quick=2000, thorough=6000, workers_quick=8),
 ]
